@@ -46,9 +46,10 @@ namespace
     {
       auto ta = va.get_type ();
       auto tb = vb.get_type ();
-      if (ta < tb)
+      // VB is the left-hand operand.
+      if (tb < ta)
 	return pred_result (want == cmp_result::less);
-      else if (tb < ta)
+      else if (ta < tb)
 	return pred_result (want == cmp_result::greater);
     }
 
